@@ -131,7 +131,8 @@ def run (kind : String) (toks impl : List String) : String :=
         else
           (if kind == "h2t" then fwdRespH2 isHead [] sent else if kind == "x12" then x12Resp sent else x21Resp isHead [] sent)
       -- a request whose target net/url refuses is refused by the HTTP/2 server stream (stream error), never forwarded
-      let refused := isReq && kind != "x12" && (O.escaped []).isNone
+      -- … and so is a request with an upper-case field name on the HTTP/2 wire (malformed, RFC 7540 8.1.2)
+      let refused := isReq && kind != "x12" && ((O.escaped []).isNone || sent.fields.any (fun f => lower f.1 != f.1))
       match impl with
       | [st, gi, gp, gf, ge, gb, gt] =>
         match parseGot gp gf ge gb gt with
